@@ -1,4 +1,4 @@
 #!/bin/bash
 # unchanged-tree sweep: all 20 quick checks under several seeds
 ./setup.sh >/dev/null 2>&1
-for sd in ${SWEEP_SEEDS:-2 3 5}; do for p in C01 C02 C03 C04 C05 C06 C07 C08 C09 C10 C11 C12 C13 C14 C15 C16 C17 C18 C19 C20; do VERIF_SEED=$sd ./check $p --tier quick 2>&1 | tail -1 | cut -c1-160 | sed "s/^/seed=$sd /"; done; done
+for sd in ${SWEEP_SEEDS:-2 3 5}; do for p in ${SWEEP_PROPS:-C01 C02 C03 C04 C05 C06 C07 C08 C09 C10 C11 C12 C13 C14 C15 C16 C17 C18 C19 C20}; do VERIF_DEEP=${SWEEP_DEEP:-} VERIF_SEED=$sd ./check $p --tier quick 2>&1 | tail -1 | cut -c1-160 | sed "s/^/seed=$sd /"; done; done
